@@ -236,7 +236,12 @@ def mod(number, divisor):
     if divisor == 0:
         return DIV0
 
-    return number % divisor
+    result = number % divisor
+    if isinstance(result, float) and number / divisor - number // divisor >= 1:
+        # the quotient is rounded up to a whole number: INT(1 / 0.1) is 10,
+        # 1 is a multiple of 0.1 (% gives what nine times binary 0.1 leaves)
+        result = 0.0
+    return result
 
 
 @excel_helper(cse_params=None, err_str_params=-1, number_params=0)
